@@ -65,7 +65,7 @@ class Spec:
     def do_op(self, k, w, logical, now):
         """a clock call; returns exception name or None"""
         c = self.clock[k]
-        if w[0] in ('s', 'q', 'T') and c['stopped']:
+        if w[0] in ('s', 'q', 'T', 'E') and c['stopped']:
             return 'ClockNotRunning'
         if w[0] == 's':
             self.insert(k, F(w[1]), int(w[2]), now)
@@ -83,6 +83,12 @@ class Spec:
                 return 'ValueError'
             beats = self.s2b(k, logical)
             c['tempo'] = (v, beats, logical)
+        elif w[0] == 'E':
+            # etempo: the change is anchored at the physical present; the beat count is continuous
+            v = F(w[1])
+            if v == 0:
+                return 'ValueError'
+            c['tempo'] = (v, self.s2b(k, now), now)
         return None
 
     def next_beh(self, tid):
@@ -212,6 +218,19 @@ class Spec:
             self.tasks[int(w[1])] = {'kind': w[2], 'behs': [b for b in behs if b], 'dead': False}
         elif w[0] == 'new':
             self.clock[f't{w[1]}'] = self.newclock(F(w[2]), self.now)
+            self.clock[f't{w[1]}']['permanent'] = w[-1] == 'p'
+        elif w[0] == 'cmdp':
+            # CmdPeriod: nothing scheduled before it may run afterwards, on any clock; non-permanent
+            # TempoClocks stop, permanent ones keep running
+            self.batch = []
+            for k, c in self.clock.items():
+                c['pending'].clear()
+                if c['tempo'] is not None and not c['stopped'] and not c.get('permanent'):
+                    c['stopped'] = True
+                    if f'X{k}' not in evs:
+                        return self.bad(i, f'CmdPeriod did not stop the non-permanent clock {k}', 'c08:cmdperiod-stop')
+                elif f'X{k}' in evs:
+                    return self.bad(i, f'CmdPeriod stopped the thread of clock {k}', 'c08:thread-exit')
         elif w[0] == 'adv':
             self.now += F(w[1])
         elif w[0] == 'op':
@@ -366,6 +385,7 @@ class Check(common.Check):
         'order_by_time_fifo', 'never_early', 'never_early_current_tempo', 'no_lost_wakeup', 'sched_ahead_of_sleeping_head_notifies',
         'on_time', 'resched_relative_to_sched_time', 'clear_cancels_all', 'stop_cancels_all',
         'exited_is_final', 'cancelled_never_awakened', 'exception_isolated', 'tempo_change_reevaluates',
+        'etempo_continuous',
         'areach_inv', 'app_trace_ok', 'app_wake_exactly_once', 'app_never_early', 'app_no_lost_wakeup',
         'app_sched_in_window_not_lost', 'app_resched_relative_to_now', 'app_clear_cancels_queue',
         'app_exception_isolated')]
@@ -421,7 +441,7 @@ class Check(common.Check):
                     elif r < 0.78:
                         atoms.append(f'{k}:c')
                     elif r < 0.86 and tempos:
-                        atoms.append(f'{G.choice(tempos)}:T:{fr(G.choice([Fr(1,2), Fr(1), Fr(2), Fr(4)]))}')
+                        atoms.append(f'{G.choice(tempos)}:{G.choice("TTE")}:{fr(G.choice([Fr(1,2), Fr(1), Fr(2), Fr(4)]))}')
                     else:
                         atoms.append(f'+:{fr(G.choice([Fr(1,1024), Fr(1,8), Fr(1,2)]))}')
                 r = G.random()
@@ -438,7 +458,7 @@ class Check(common.Check):
                 behs.append(' '.join(atoms + [res]))
             lines.append(f'task {t} {G.choice("FFFR")} ' + ' | '.join(behs))
         for i in range(ntempo):
-            lines.append(f'new {i} {fr(G.choice([Fr(1,2), Fr(1), Fr(2), Fr(4)]))}')
+            lines.append(f'new {i} {fr(G.choice([Fr(1,2), Fr(1), Fr(2), Fr(4)]))}' + (' p' if G.random() < 0.3 else ''))
         now = Fr(0)
         late = lambda: G.choice([Fr(0), Fr(0), Fr(1, 1024), Fr(1, 64), Fr(1, 4), Fr(2)])
         n = G.choice([G.randint(3, 10), G.randint(8, 25), G.randint(20, 45)])
@@ -467,9 +487,14 @@ class Check(common.Check):
             elif r < 0.84:
                 lines.append(f'op {thr} {k} c')
             elif r < 0.88 and tempos:
-                lines.append(f'op {thr} {G.choice(tempos)} T {fr(G.choice([Fr(1,2), Fr(1), Fr(2), Fr(4), Fr(0), Fr(-1)]))}')
+                if G.random() < 0.6:
+                    lines.append(f'op {thr} {G.choice(tempos)} T {fr(G.choice([Fr(1,2), Fr(1), Fr(2), Fr(4), Fr(0), Fr(-1)]))}')
+                else:
+                    lines.append(f'op {thr} {G.choice(tempos)} E {fr(G.choice([Fr(1,2), Fr(1), Fr(2), Fr(4), Fr(0)]))}')
             elif r < 0.90 and tempos:
                 lines.append(f'op m {G.choice(tempos)} stop')
+            elif r < 0.915:
+                lines.append('cmdp')
             elif r < 0.95 and 'a' in allc:
                 lines.append(G.choice([f'half {fr(G.choice([Fr(0), Fr(1,8), Fr(1,2)]))} {G.randrange(nt)}', 'fin', 'cont a']))
             else:
@@ -521,11 +546,49 @@ class Check(common.Check):
         lines += [f'run 3 {fr(G.choice([Fr(0), Fr(1, 64)]))}', 'fin', 'cont a', f'run {BIG} 0', 'dump']
         return lines
 
+    def gen_cmdperiod(self, G):
+        """tasks pending on every clock kind (one TempoClock permanent), CmdPeriod, then scheduling again"""
+        lines = [f'task {t} {G.choice("FR")} ' + G.choice(['d', 'r:1/4 | d', 'r:1/8 | r:1/8 | d', 'x']) for t in range(6)]
+        perm = G.choice([0, 1])
+        for i in (0, 1):
+            lines.append(f'new {i} {fr(G.choice([Fr(1), Fr(2)]))}' + (' p' if i == perm or G.random() < 0.2 else ''))
+        for t, k in enumerate(['s', 'a', 't0', 't1', G.choice(['s', 't0', 't1']), G.choice(['a', 't0', 't1'])]):
+            d = G.choice([Fr(1, 8), Fr(1, 2), Fr(1), Fr(2)])
+            lines.append(f'op {G.choice("mo")} {k} q {fr(d)} {t}')
+        if G.random() < 0.6:
+            lines.append(f'run {fr(G.choice([Fr(1, 8), Fr(1, 4), Fr(1, 2)]))} {fr(G.choice([Fr(0), Fr(1, 64)]))}')
+        lines.append('cmdp')
+        lines.append(G.choice([f'run 3 0', f'run 1 1/64', 'wake t0 n', 'wake t1 n']))
+        for k in ['s', 'a', 't0', 't1']:
+            if G.random() < 0.7:
+                lines.append(f'op m {k} q {fr(G.choice([Fr(1, 8), Fr(1, 2)]))} {G.randrange(6)}')
+        lines += [f'run 3 {fr(G.choice([Fr(0), Fr(1, 64)]))}', 'fin', 'cont a', f'run {BIG} 0', 'dump']
+        return lines
+
+    def gen_etempo(self, G):
+        """a TempoClock that has been running for a while, tasks pending, etempo() from a thread or a task"""
+        rate = G.choice([Fr(1), Fr(2), Fr(4)])
+        v = G.choice([Fr(1, 2), Fr(1), Fr(2), Fr(4)])
+        lines = ['task 0 F ' + G.choice(['d', 'r:1/2 | r:1/2 | d']), 'task 1 R r:1/4 | r:1/4 | d',
+                 f'task 2 F t0:E:{fr(v)} ' + G.choice(['d', 'r:1/2 | d']), f'new 0 {fr(rate)}']
+        lines.append(f'run {fr(G.choice([Fr(1, 2), Fr(3), Fr(5, 4)]))} 0')            # the clock gets an age
+        for t in (0, 1):
+            lines.append(f'op m t0 q {fr(G.choice([Fr(1), Fr(2), Fr(3)]))} {t}')
+        if G.random() < 0.5:
+            lines.append(f'op m t0 q {fr(G.choice([Fr(1, 4), Fr(1, 2)]))} 2')          # etempo from a task
+            lines.append(f'run 1 {fr(G.choice([Fr(0), Fr(1, 64), Fr(1, 4)]))}')
+        else:
+            lines.append(f'adv {fr(G.choice([Fr(1, 8), Fr(1, 2)]))}')
+            lines.append(f'op {G.choice("mo")} t0 E {fr(v)}')
+        lines += [f'run 2 {fr(G.choice([Fr(0), Fr(1, 64)]))}', f'op m t0 q 1/2 0', f'run {BIG} 0', 'dump']
+        return lines
+
     def gen(self, rng, n):
         out = []
         for _ in range(n):
             r = rng.random()
             out.append(self.gen_tempo_batch(rng) if r < 0.08 else self.gen_midstep(rng) if r < 0.18
+                       else self.gen_cmdperiod(rng) if r < 0.24 else self.gen_etempo(rng) if r < 0.30
                        else self.gen_one(rng))
         return out
 
